@@ -67,17 +67,17 @@ func Main(profile string) {
 			}
 		}
 	}
-	nStep, nBig, nE2E, nPre := 1200, 40, 60, 60
+	nStep, nBig, nE2E, nPre := 900, 25, 60, 60
 	if cfg.Thorough() {
 		nStep, nBig, nE2E, nPre = 25000, 600, 1500, 1500
 	}
 	for i := 0; i < nStep; i++ {
 		r := rng.Fork()
-		emit("step", append([]string{"STEP"}, Gen(r, profile, r.Range(4, 36), false)...))
+		emit("step", append([]string{"STEP"}, Gen(r, profile, r.Range(4, 28), false, false)...))
 	}
 	for i := 0; i < nBig; i++ {
 		r := rng.Fork()
-		emit("big", append([]string{"STEP"}, Gen(r, profile, r.Range(4, 14), true)...))
+		emit("big", append([]string{"STEP"}, Gen(r, profile, r.Range(4, 12), true, false)...))
 	}
 	for i := 0; i < nE2E; i++ {
 		r := rng.Fork()
@@ -86,7 +86,7 @@ func Main(profile string) {
 		if profile == "c09" {
 			mode = "E2W" // C09 does not depend on the preface being dribbled (that is C08's finding)
 		}
-		emit("e2e", append([]string{fmt.Sprintf("%s:%d", mode, d)}, Gen(r, profile, r.Range(4, 24), i%10 == 9)...))
+		emit("e2e", append([]string{fmt.Sprintf("%s:%d", mode, d)}, Gen(r, profile, r.Range(4, 24), i%10 == 9, true)...))
 	}
 	if profile == "c08" {
 		for i := 0; i < nPre; i++ {
